@@ -376,6 +376,9 @@ def cases(tier, rng):
                    stop=[r[2] + rng.choice([0, 0, 1, 40]) for r in rows])
         yield dict(common, op="geo_extend", start=[r[1] for r in rows], stop=[r[2] for r in rows],
                    fwd=[rng.randrange(2) for _ in rows], len=rng.choice([0, 1, 3, 10, 50]))
+        # Geometry.get_mask / get_pileup on several chromosomes (implementation vs per-base oracle)
+        srt = sorted(rows)
+        yield {"op": rng.choice(["geo_mask", "geo_pileup"]), "chrom_sizes": sizes, "rows": [list(r) for r in srt]}
 
 
 def _touchy(ivl, size):
@@ -398,6 +401,8 @@ def nontrivial(c):
         return any(s < 0 or e > z for s, e, z in zip(c["start"], c["stop"], c["sizes"]))
     if op in ("extend", "geo_extend"):
         return len(c["start"]) > 0
+    if op in ("geo_mask", "geo_pileup"):
+        return len(c["rows"]) > 0
     return True
 
 
@@ -487,6 +492,14 @@ def impl(c):
                 else:
                     v = getattr(ar, op)(sizes, a, b)
             return {"bits": _bits(v)}
+        if op in ("geo_mask", "geo_pileup"):
+            sizes = {f"chr{i + 1}": z for i, z in enumerate(c["chrom_sizes"])}
+            rows = c["rows"]
+            x = m["Interval"]([f"chr{r[0] + 1}" for r in rows], np.array([r[1] for r in rows], dtype=int),
+                              np.array([r[2] for r in rows], dtype=int))
+            geo = m["Geometry"](sizes)
+            d = (geo.get_mask(x) if op == "geo_mask" else geo.get_pileup(x)).to_dict()
+            return {"dict": [[int(v) for v in d[f"chr{i + 1}"].tolist()] for i in range(len(sizes))]}
         if op in ("clip", "geo_clip", "extend", "geo_extend"):
             n = len(c["start"])
             st, sp = np.array(c["start"], dtype=int), np.array(c["stop"], dtype=int)
@@ -583,6 +596,14 @@ def oracle(c):
         if a + b + cc == 0:
             return SKIP
         return {"bits": _bits(a / (a + b + cc))}
+    if op in ("geo_mask", "geo_pileup"):
+        out = []
+        for i, z in enumerate(c["chrom_sizes"]):
+            I = [(r[1], r[2]) for r in c["rows"] if r[0] == i]
+            if not _valid(I, z):
+                return SKIP
+            out.append([(int(_cov(I, p) > 0) if op == "geo_mask" else _cov(I, p)) for p in range(z)])
+        return {"dict": out}
     if op in ("clip", "geo_clip"):
         out = []
         for s, e, z in zip(c["start"], c["stop"], c["sizes"]):
